@@ -11,17 +11,17 @@ import (
 
 // Helpers for harnesses (here and in weed/server) that drive the real Filer over the reference store.
 
-// VerifMemStore is the exported face of the reference store.
-type VerifMemStore = verifMemStore
+// VhMemStore is the exported face of the reference store.
+type VhMemStore = verifMemStore
 
-func VerifNewMemStore() *VerifMemStore { return verifNewMemStore() }
+func VhNewMemStore() *VhMemStore { return verifNewMemStore() }
 
-// VerifRunaway bounds the number of entries: an operation that keeps inserting (a directory moved
+// VhRunaway bounds the number of entries: an operation that keeps inserting (a directory moved
 // into itself) ends in this panic instead of running forever.
-const VerifRunaway = 16
+const VhRunaway = 16
 
-// VerifNewFiler builds a Filer around a store without master client, peers or log buffer.
-func VerifNewFiler(store FilerStore) *Filer {
+// VhNewFiler builds a Filer around a store without master client, peers or log buffer.
+func VhNewFiler(store FilerStore) *Filer {
 	f := &Filer{
 		Store:               NewFilerStoreWrapper(store),
 		fileIdDeletionQueue: util.NewUnboundedQueue(),
@@ -48,9 +48,9 @@ func verifDoDeleteFileIds(f *Filer, fileIds []string) {
 	verifDirectDeleted = append(verifDirectDeleted, fileIds...)
 }
 
-// VerifDeletedFileIds returns every file id deleted directly or queued for deletion so far (sink 2 is
+// VhDeletedFileIds returns every file id deleted directly or queued for deletion so far (sink 2 is
 // the real deletion queue, drained here).
-func VerifDeletedFileIds(f *Filer) []string {
+func VhDeletedFileIds(f *Filer) []string {
 	out := append([]string(nil), verifDirectDeleted...)
 	for i := 0; i < 2; i++ {
 		f.fileIdDeletionQueue.Consume(func(ids []string) { out = append(out, ids...) })
@@ -102,8 +102,8 @@ func verifProtoUnmarshalMerge(blob []byte, m proto.Message) error {
 	return nil
 }
 
-// VerifSnapshot describes the namespace held by the store: path -> "dir" or "file:<content>:<chunks>:<hardlink>".
-func (s *verifMemStore) VerifSnapshot() (paths []string, desc map[string]string) {
+// VhSnapshot describes the namespace held by the store: path -> "dir" or "file:<content>:<chunks>:<hardlink>".
+func (s *verifMemStore) VhSnapshot() (paths []string, desc map[string]string) {
 	desc = map[string]string{}
 	for _, k := range s.sortedKeys() {
 		e := s.entries[k]
@@ -121,4 +121,4 @@ func (s *verifMemStore) VerifSnapshot() (paths []string, desc map[string]string)
 	return
 }
 
-func (s *verifMemStore) VerifKvLen() int { return len(s.kv) }
+func (s *verifMemStore) VhKvLen() int { return len(s.kv) }
